@@ -160,7 +160,8 @@ import numpy as np, pandas as pd
 from formulaic import model_matrix
 n = 9
 df = pd.DataFrame({"a": [float((i*7) % 5) + 0.5*i for i in range(n)], "b": [float((i*3) % 4) - 1 for i in range(n)], "c": [1.0 + i for i in range(n)],
-                   "A": pd.Series([["x","y","z"][i % 3] for i in range(n)], dtype=object), "B": pd.Series([["u","v"][i % 2] for i in range(n)], dtype=object)})
+                   "A": pd.Series([["x","y","z"][i % 3] for i in range(n)], dtype=object), "B": pd.Series([["u","v"][i % 2] for i in range(n)], dtype=object),
+                   "G": pd.Series([["p","q"][(i // 2) % 2] for i in range(n)], dtype=object), "H": pd.Series([["m","n","o","k"][(i * 3) % 4] for i in range(n)], dtype=object)})
 df.loc[4, "b"] = np.nan
 out = {}
 for f in sys.argv[1:]:
@@ -182,7 +183,9 @@ for f in sys.argv[1:]:
 print(json.dumps(out, sort_keys=True))
 '''
 SEED_FORMULAS = ["a + b + A + B + a:A + b:B + A:B", "y ~ x".replace("y", "c").replace("x", "center(a) + scale(b) + A:B + poly(c, 2)"),
-                 "b:a:A + B:A + a + c:B + A", "bs(a, df=4) + C(A, contr.helmert):b | B + c", "(a + b + c + A + B)**2", "cr(c, df=3) + hashed(A, levels=5) + b"]
+                 "b:a:A + B:A + a + c:B + A", "bs(a, df=4) + C(A, contr.helmert):b | B + c", "(a + b + c + A + B)**2", "cr(c, df=3) + hashed(A, levels=5) + b",
+                 # interactions of three and four categorical factors: the rank-reduction recombines equally long scoped terms, ties broken by insertion order
+                 "a + A:B:G", "0 + G:A:B + a:B", "A:B:G:H + A:B", "(A + B + G)**3 | a:A:B:G", "H:G:B:A:a + G"]
 
 
 def _hash_seeds(ctx: Ctx):
@@ -206,7 +209,58 @@ def _hash_seeds(ctx: Ctx):
     ctx.samples.append({"hash seeds": seeds, "formulas": SEED_FORMULAS})
 
 
+def _rebinding(ctx: Ctx):
+    """the meaning of a name is decided by what it is bound to in THIS call: the same callable name bound to a stateful transform in one
+    build and to a plain function in another (either order, also a user function named like a built-in transform) -- nothing remembered
+    from an earlier build of the process may change a later result"""
+    import numpy as np
+    from formulaic import model_matrix
+    from formulaic.transforms import TRANSFORMS
+    rng = ctx.fork("rebinding")
+    frames = _frames()
+    train, test = frames[0], frames[2]
+    mean_a = float(np.mean(train["a"]))
+
+    def plain(v):
+        return np.asarray(v, dtype=float) - 1.0
+    want = {"stateful": (np.asarray(train["a"]) - mean_a, np.asarray(test["a"]) - mean_a), "plain": (np.asarray(train["a"]) - 1.0, np.asarray(test["a"]) - 1.0)}
+    bind = {"stateful": TRANSFORMS["center"], "plain": plain}
+    for i in range(ctx.n(24, 200)):
+        name = rng.choice(["center", "scale", "fn_%d_%d" % (ctx.seed, i), "tr%d" % i, "np2.shift"])
+        order = rng.choice([["stateful", "plain"], ["plain", "stateful"], ["plain", "stateful", "plain"], ["stateful", "plain", "stateful"]])
+        if name in ("center", "scale"):
+            order = [o for o in order] + ["builtin"]
+        hist = []
+        for what in order:
+            hist.append(what)
+            ctx.oracle_runs += 1
+            rp = {"kind": "rebinding", "name": name, "bound_to": hist[:]}
+            if what == "builtin":
+                context, f = {}, f"0 + {name}(a)"
+                sd = float(np.std(train["a"], ddof=1))
+                w = want["stateful"] if name == "center" else ((np.asarray(train["a"]) - mean_a) / sd, (np.asarray(test["a"]) - mean_a) / sd)
+            elif "." in name:
+                holder = type("NS", (), {})()
+                setattr(holder, name.split(".")[1], bind[what])
+                context, f, w = {name.split(".")[0]: holder}, f"0 + {name}(a)", want[what]
+            else:
+                context, f, w = {name: bind[what]}, f"0 + {name}(a)", want[what]
+            try:
+                mm = model_matrix(f, train, context=context)
+                again = mm.model_spec.get_model_matrix(test, context=context)
+                got = (np.asarray(mm, dtype=float)[:, 0], np.asarray(again, dtype=float)[:, 0])
+            except Exception as e:
+                ctx.fail(f"{f!r} with {name!r} bound in turn to {hist}: {type(e).__name__}: {str(e)[:200]}", rp)
+                break
+            if not (np.allclose(got[0], w[0], atol=1e-12) and np.allclose(got[1], w[1], atol=1e-12)):
+                ctx.fail(f"{f!r} with {name!r} bound in turn to {hist}: the last build gives {got[0].tolist()} / on new data {got[1].tolist()}; "
+                         f"the function bound in that call gives {w[0].tolist()} / {w[1].tolist()}", rp)
+                break
+        ctx.count("rebinding", "name=" + ("builtin-name" if name in ("center", "scale") else "dotted" if "." in name else "fresh"))
+
+
 def run(ctx: Ctx):
+    _rebinding(ctx)
     rng = ctx.fork("c18")
     lits, descr = [], []
     for i in range(ctx.n(150, 2500)):
